@@ -48,6 +48,7 @@ var guardSpecs = []guardSpec{
 }
 
 var ifRe = regexp.MustCompile(`\bif\b`)
+var retRe = regexp.MustCompile(`\breturn\b`)
 var followRe = regexp.MustCompile(`^\s*if (err != nil|!ok)\b`)
 
 type hit struct {
@@ -198,6 +199,7 @@ func emitGuards(repo, outDir string) error {
 		name := "skel_" + coqIdent(strings.TrimSuffix(strings.TrimSuffix(g.file, ".go"), ".c")+"_"+g.fn)
 		if !ok {
 			fmt.Fprintf(&sb, "Definition %s : list ev := [Missing].\n", name)
+			fmt.Fprintf(&sb, "Definition nret_%s : nat := 0.\n", strings.TrimPrefix(name, "skel_"))
 			continue
 		}
 		var items []string
@@ -209,6 +211,8 @@ func emitGuards(repo, outDir string) error {
 			items = append(items, fmt.Sprintf("%s \"%s\"", k, strings.ReplaceAll(h.name, "\"", "'")))
 		}
 		fmt.Fprintf(&sb, "Definition %s : list ev := [%s].\n", name, strings.Join(items, "; "))
+		// number of return statements: a tripwire for added or removed early exits
+		fmt.Fprintf(&sb, "Definition nret_%s : nat := %d.\n", strings.TrimPrefix(name, "skel_"), len(retRe.FindAllString(body, -1)))
 	}
 	writeIfChanged(filepath.Join(outDir, "Guards.v"), sb.String())
 	return nil
